@@ -151,12 +151,12 @@ Definition contrib (line : bytes) : list smeta :=
 (* bucket_entries / bucket_entries_async on the bytes of a bucket file *)
 Definition entries (f : bytes) : list smeta := flat_map contrib (lines f).
 
-(* index::find's fold; an integrity that does not parse leaves the accumulator alone *)
+(* index::find's fold; an integrity that does not parse (or cannot address content) leaves the accumulator alone *)
 Definition find_step (key : bytes) (acc : option meta) (e : smeta) : option meta :=
   if bytes_eqb (sm_key e) key then
     match sm_integrity e with
     | Some text =>
-        match parse_sri text with
+        match parse_entry_sri text with
         | Some i => Some (mkMeta (sm_key e) i (sm_time e) (sm_size e) (sm_metadata e) (sm_raw e))
         | None => acc
         end
@@ -173,7 +173,7 @@ Definition find_bytes (key : bytes) (f : bytes) : option meta := find_in key (en
    ignores them), then newest-first de-duplication by key, then tombstones are dropped *)
 Definition parses (e : smeta) : bool :=
   match sm_integrity e with
-  | Some text => match parse_sri text with Some _ => true | None => false end
+  | Some text => match parse_entry_sri text with Some _ => true | None => false end
   | None => true
   end.
 
@@ -187,7 +187,7 @@ Fixpoint dedupe (seen : list bytes) (es : list smeta) : list smeta :=
 Definition live (e : smeta) : list meta :=
   match sm_integrity e with
   | Some text =>
-      match parse_sri text with
+      match parse_entry_sri text with
       | Some i => [mkMeta (sm_key e) i (sm_time e) (sm_size e) (sm_metadata e) (sm_raw e)]
       | None => []
       end
